@@ -41,7 +41,9 @@ def _collect_implicit_usages(
         if inp is None or inp.graph is subgraph:
             continue
         # This is a closed variable, add to implicit usages of all graphs that enclose it
-        for g in reversed(graph_stack):
+        # graph_stack[0] is the analysed graph itself: it is not a subgraph and has no entry
+        # (the value may be defined above it when a nested graph is analysed on its own)
+        for g in reversed(graph_stack[1:]):
             if g is inp.graph:
                 break
             implicit_usages[g].add(inp)
